@@ -17,7 +17,7 @@ inline Hook &hook() { static Hook h; return h; }
 #define rChangeCb if (ga::hook().fn) ga::hook().fn(data.loc)
 
 struct Sub {
-  int si = 0; float sf = 0; bool st = false; int so = 0; char ss[16] = {0}; int sa[12] = {0}; bool on = true; int sj = 0;
+  int si = 0; float sf = 0; bool st = false; int so = 0; char ss[16] = {0}; int sa[12] = {0}; bool on = true; int sj = 0; bool sv[3] = {false, false, false};
   static pt::PortsProxy ports;
 };
 inline pt::PortsProxy Sub::ports;
@@ -26,7 +26,7 @@ struct Root {
   Sub sub; Sub *psub = nullptr; Sub subs[3];
 };
 
-enum Field { PRESET, RI, RJ, RF, RT, RO, RC, RS, RA, RFA, EN, VP, NROOT, SI = 20, SF, ST, SO, SS, SA, ON, SJ, NSUBEND };
+enum Field { PRESET, RI, RJ, RF, RT, RO, RC, RS, RA, RFA, EN, VP, NROOT, SI = 20, SF, ST, SO, SS, SA, ON, SJ, SV, NSUBEND };
 enum VKind { K_INT, K_FLOAT, K_BOOL, K_OPT, K_CHAR, K_STR, K_AINT, K_AFLOAT, K_ABOOL };   // K_ABOOL: 'vp#3/on' (array index in the middle of the name)
 inline VKind kind_of(int f) {
   switch (f) {
@@ -37,13 +37,13 @@ inline VKind kind_of(int f) {
     case RC: return K_CHAR;
     case RS: case SS: return K_STR;
     case RA: case SA: return K_AINT;
-    case VP: return K_ABOOL;
+    case VP: case SV: return K_ABOOL;
     default: return K_AFLOAT;
   }
 }
 inline const char *name_of(int f) {
   static const char *r[] = {"preset", "ri", "rj", "rf", "rt", "ro", "rc", "rs", "ra", "rfa", "en", "vp"};
-  static const char *s[] = {"si", "sf", "st", "so", "ss", "sa", "on", "sj"};
+  static const char *s[] = {"si", "sf", "st", "so", "ss", "sa", "on", "sj", "sv"};
   return f < NROOT ? r[f] : s[f - SI];
 }
 inline const char *spec_of(int f) {
@@ -209,6 +209,7 @@ inline cb_t field_cb(int f) {
     case SO: return rOptionCb(so);
     case SS: return rStringCb(ss, 16);
     case SA: return rArrayICb(sa);
+    case SV: return rArrayTCb(sv);
     default: return rToggleCb(on);
 #undef rObject
   }
@@ -241,7 +242,7 @@ inline Val get_sub(const Sub &s, int f) {
   Val v;
   switch (f) {
     case SI: v.i = s.si; break; case SJ: v.i = s.sj; break; case SF: v.f = s.sf; break; case ST: v.i = s.st; break; case SO: v.i = s.so; break; case SS: v.s = s.ss; break;
-    case SA: v.ai.assign(s.sa, s.sa + 12); break; default: v.i = s.on; break;
+    case SA: v.ai.assign(s.sa, s.sa + 12); break; case SV: for (int k = 0; k < 3; k++) v.ai.push_back(s.sv[k]); break; default: v.i = s.on; break;
   }
   return v;
 }
@@ -249,7 +250,7 @@ inline void set_sub(Sub &s, int f, const Val &v) {
   switch (f) {
     case SI: s.si = (int)v.i; break; case SJ: s.sj = (int)v.i; break; case SF: s.sf = (float)v.f; break; case ST: s.st = v.i != 0; break; case SO: s.so = (int)v.i; break;
     case SS: memset(s.ss, 0, 16); memcpy(s.ss, v.s.data(), std::min<size_t>(15, v.s.size())); break;
-    case SA: for (size_t k = 0; k < 12; k++) s.sa[k] = k < v.ai.size() ? (int)v.ai[k] : 0; break; default: s.on = v.i != 0; break;
+    case SA: for (size_t k = 0; k < 12; k++) s.sa[k] = k < v.ai.size() ? (int)v.ai[k] : 0; break; case SV: for (size_t k = 0; k < 3 && k < v.ai.size(); k++) s.sv[k] = v.ai[k] != 0; break; default: s.on = v.i != 0; break;
   }
 }
 
@@ -312,6 +313,16 @@ struct App {
       for (auto &p : spec.root) if (p.has_default && p.depends_on == RI) set_root(root, p.field, p.default_for(root.preset));
     if (!strcmp(loc, "/rt"))
       for (auto &p : spec.root) if (p.has_default && p.depends_on2 == RT) set_root(root, p.field, p.default_for(root.preset));
+    // switching 'en' re-initialises the sub-trees it enables (rRecur*(x, rEnabledBy(en))): their parameters return to the defaults
+    if (!strcmp(loc, "/en")) {
+      std::vector<Sub *> ss = subs();
+      std::vector<std::string> pre = sub_prefixes();
+      for (size_t k = 0; k < ss.size(); k++) {
+        bool by_en = (pre[k] == "/sub/" && spec.sub_en_by) || (pre[k] == "/psub/" && spec.psub_en_by) || (pre[k].compare(0, 5, "/subs") == 0 && spec.subs_en_by);
+        if (!by_en) continue;
+        for (auto &p : spec.sub) if (p.has_default && p.field != ON) set_sub(*ss[k], p.field, p.dflt[0]);
+      }
+    }
   }
   void dispatch(const std::string &msg) {
     attach();
@@ -406,6 +417,7 @@ inline AppSpec gen_spec() {
   }
   for (int f = SI; f < ON; f++) if (vf::chance(60)) s.sub.push_back(gen_pspec(f, false));
   if (vf::chance(40)) s.sub.push_back(gen_pspec(SJ, false));
+  if (vf::chance(30)) s.sub.push_back(gen_pspec(SV, false));   // 'sv#3/on' inside the sub-trees: a name spanning two components below an enabled-by level
   s.self_on = vf::chance(35);
   if (s.self_on) { PSpec p; p.field = ON; p.has_default = true; p.has_preset.assign(3, 0); Val d; d.i = vf::chance(75); p.dflt.assign(4, d); s.sub.insert(s.sub.begin() + vf::pickn((int)s.sub.size() + 1), p); }
   s.ptr_port = s.has_sub && vf::chance(40);
@@ -479,10 +491,12 @@ inline void model_apply(App &m, const Set &s) {
     if (s.idx >= 0) { if (kind_of(s.field) == K_AINT || kind_of(s.field) == K_ABOOL) cur.ai[(size_t)s.idx] = s.v.ai[(size_t)s.idx]; else cur.af[(size_t)s.idx] = s.v.af[(size_t)s.idx]; }
     else cur = s.v;
     bool rt_changes = s.field == RT && get_root(m.root, RT).i != cur.i;
+    bool en_changes = s.field == EN && get_root(m.root, EN).i != cur.i;
     set_root(m.root, s.field, cur);
     if (s.field == PRESET) m.on_changed("/preset");
     if (s.field == RI) m.on_changed("/ri");
     if (rt_changes) m.on_changed("/rt");
+    if (en_changes) m.on_changed("/en");
   } else {
     Sub *sub = s.target == 1 ? &m.root.sub : s.target == 2 ? m.root.psub : &m.root.subs[s.target - 3];
     if (!sub) return;
